@@ -250,10 +250,28 @@ def butter_real(ctx):
     ctx.oracle('C17.a cut-offs may be given as list, tuple or array: an ndarray is accepted', res[0] == 'ok',
                {'values': 'sin(2*pi*2*t), n=4000', 'dt': 0.01, 'cut_off': [0.5, 10.0], 'container': 'ndarray'}, detail=res)
     n_cases = 200 if ctx.tier == 'quick' else 1500
+    prev = None
     for i in range(n_cases):
         dt = rng.choice([0.01, 0.005, 0.02, 0.03, 0.015, 0.04, 0.0125])      # also steps whose reciprocal is not an integer
         ftype, cut, probes, flow = filt_setup(rng, dt)
         order = 1 + i % 4
+        if prev is not None and rng.random() < 0.4:
+            # consecutive calls that share the time step, the order and a cut-off frequency with the previous call but ask for ANOTHER
+            # filter type (low <-> high at the same corner; a one-sided filter at a corner of the previous band): every call is
+            # judged against the filter it requested, whatever was designed before in this process
+            dt, order, pcut = prev
+            nyq = 0.5 / dt
+            pl, ph_ = pcut
+            if pl is None or ph_ is None:
+                fc = ph_ if pl is None else pl
+                ftype, cut = ('high', [fc, None]) if pl is None else ('low', [None, fc])
+            else:
+                ftype, cut = rng.choice([('low', [None, ph_]), ('high', [pl, None]), ('low', [None, pl]), ('high', [ph_, None])])
+                fc = cut[1] if ftype == 'low' else cut[0]
+            probes = [min(fc * r, 0.9 * nyq) for r in (0.2, 0.5, 0.8, 1.0, 1.25, 2.0, 3.0)]
+            flow = fc
+            ctx.hist('gain/derived-from-previous-call')
+        prev = (dt, order, tuple(cut))
         mname, mval = MODES[(i // 4) % 4]
         cont = ['list', 'tuple', 'ndarray'][i % 3]
         co = mk_container(cont, cut, rng)
